@@ -45,6 +45,9 @@ type LemmaRef struct {
 	C   *Clause
 }
 
+// toleratedSeen: generated package -> number of tolerated type errors (reported in the evidence).
+var toleratedSeen = map[string]int{}
+
 type LoadOpts struct {
 	RepoDir   string
 	Patterns  []string
@@ -98,6 +101,10 @@ func loadProgram(o LoadOpts) (*Program, error) {
 		all[p.PkgPath] = p
 		post = append(post, p) // post-order: deps first
 		for _, e := range p.Errors {
+			if toleratedErr(p.PkgPath, e.Error()) {
+				toleratedSeen[p.PkgPath]++
+				continue
+			}
 			if strings.HasPrefix(p.PkgPath, "github.com/openconfig/ygot") || isRoot(lps, p) {
 				errs = append(errs, e.Error())
 			}
@@ -216,6 +223,15 @@ func loadProgram(o LoadOpts) (*Program, error) {
 			Error: func(err error) { terrs = append(terrs, err.Error()) },
 		}
 		tp, _ := tc.Check(lp.PkgPath, prog.Fset, files, info)
+		{
+			var keep []string
+			for _, m := range terrs {
+				if !toleratedErr(lp.PkgPath, m) {
+					keep = append(keep, m)
+				}
+			}
+			terrs = keep
+		}
 		if len(terrs) > 0 {
 			if p.Synth != nil {
 				os.WriteFile("/tmp/verif_synth_err.go", []byte(prog.SynthSrc[p.Path]), 0o644)
